@@ -114,6 +114,17 @@ class RealEcc:
     def decode(self, en, w):
         return self.dec.eval(en, w)
 
+    def internals(self):
+        """(syndrome value, (codeword_c ^ codeword) << 1) of the decoder for the word evaluated last; None when the
+        netlist has no `Case(syndrome, ...)` correction statement (reported by the table regeneration)."""
+        if not hasattr(self, "_int"):
+            self._int = _decoder_internals(self)
+        if self._int is None:
+            return None
+        s, cc, c = self._int
+        g = self.dec.n.getu
+        return g(s), (g(cc) ^ g(c)) << 1
+
     def selfcheck(self, rng, count=3):
         """pre-conditioned evaluation == plain reference fix-point loop (fresh netlists)."""
         other = RealEcc(self.k)
@@ -126,6 +137,201 @@ class RealEcc:
             if self.dec.eval(en, w) != other.dec.eval(en, w, plain=True):
                 return "decoder: pre-conditioned settle differs from plain settle (k=%d w=%d)" % (self.k, w)
         return None
+
+
+# ---------------------------------------------------------------------------------------------------------
+# regeneration: the GF(2) structure the elaborated netlists implement NOW, written to
+# lean/LitexModel/Generated/EccTables.lean and compared by the Lean kernel with the hand-written model
+# (LitexProofs/Ecc/Tables*.lean).  Everything is read off the REAL netlists (no ecc.py helper, no reference):
+#   encZero k   value of ECCEncoder(k).o for i = 0
+#   encRows k   value of ECCEncoder(k).o for i = 1 << b, b = 0..k-1                 (generator matrix, row b)
+#   decPass k   4*o + 2*sec + ded of ECCDecoder(k), enable = 0, i = 1 << j, j = 0..n (extraction matrix)
+#   decSingle k 4*o + 2*sec + ded of ECCDecoder(k), enable = 1, i = encZero ^ (1 << j)  (single-error table)
+#   synCols k   value of the decoder's syndrome signal (the test of its `Case`) for the same inputs, enable = 1
+#               (column j of the parity-check matrix the hardware implements)
+#   flipCols k  codeword_c ^ codeword (targets/sources of the `Case`) for the same inputs, shifted to code word bit
+#               numbering (bit p = position p): which bit the decoder inverts
+# n is the Hamming-bound length for k (ref_m_n, widened to the implementation's port like everywhere else).
+
+TABLE_KS = tuple(range(1, 17)) + (32, 64, 128)
+GEN_FILE = os.path.join(VERIF, "lean", "LitexModel", "Generated", "EccTables.lean")
+TABLES = {}          # k -> table dict of the current tree (filled by regen_tables, inherited by the forked jobs)
+
+
+def _decoder_internals(r):
+    """(syndrome signal, codeword_c, codeword) of the elaborated decoder: the `Case` on the syndrome whose branches
+    assign the corrected code word.  None when the netlist has no such statement any more."""
+    from migen.fhdl.structure import Case, _Assign, Signal, _Operator
+    for st in r.dec.n.comb:
+        if isinstance(st, Case) and isinstance(st.test, Signal):
+            a = st.cases.get("default")
+            a = a[0] if isinstance(a, list) and a else a
+            if isinstance(a, _Assign) and isinstance(a.l, Signal) and isinstance(a.r, Signal):
+                return st.test, a.l, a.r
+    return None
+
+
+def extract_table(k, rng=None, lin=6):
+    """-> (table dict, [problem strings]).  `lin` random pairs check GF(2)-linearity of the encoder and of the
+    disabled decoder, and the table against the netlists on random words."""
+    r = RealEcc(k)
+    nb = r.nbits
+    t = {"k": k, "n": r.n, "nbits": nb}
+    t["encZero"] = z = r.encode(0)
+    t["encRows"] = [r.encode(1 << b) for b in range(k)]
+    pk = lambda out: 4 * out[0] + 2 * out[1] + out[2]
+    t["decPass"] = [pk(r.decode(0, 1 << j)) for j in range(nb)]
+    t["decPassZero"] = pk(r.decode(0, 0))
+    internals = _decoder_internals(r)
+    single, syn, flip = [], [], []
+    for j in range(nb):
+        single.append(pk(r.decode(1, z ^ (1 << j))))
+        if internals is not None:
+            s, cc, c = internals
+            syn.append(r.dec.n.getu(s))
+            flip.append((r.dec.n.getu(cc) ^ r.dec.n.getu(c)) << 1)
+    t["decSingle"] = single
+    t["decClean"] = pk(r.decode(1, z))
+    t["synCols"] = syn if internals is not None else None
+    t["flipCols"] = flip if internals is not None else None
+    probs = []
+    if rng is not None:
+        for _ in range(lin):
+            a, b = rng.getrandbits(k), rng.getrandbits(k)
+            ea, eb, eab = r.encode(a), r.encode(b), r.encode(a ^ b)
+            if eab != ea ^ eb ^ z:
+                probs.append({"what": "encoder is not GF(2)-affine: enc(a^b) != enc(a)^enc(b)^enc(0)", "data": [a, b],
+                              "impl": [ea, eb, eab]})
+            if ea != table_encode(t, a):
+                probs.append({"what": "encoder differs from the XOR of its own unit-vector rows", "data": a, "impl": ea,
+                              "rows": table_encode(t, a)})
+            w = rng.getrandbits(nb)
+            o = r.decode(0, w)
+            if pk(o) != table_pass(t, w):
+                probs.append({"what": "disabled decoder differs from the XOR of its unit-vector outputs", "word": w,
+                              "impl": list(o), "rows": table_pass(t, w)})
+    return t, probs
+
+
+def table_encode(t, d):
+    w = t["encZero"]
+    for b, row in enumerate(t["encRows"]):
+        if (d >> b) & 1:
+            w ^= row ^ t["encZero"]
+    return w
+
+
+def table_pass(t, w):
+    o = t["decPassZero"]
+    for j, row in enumerate(t["decPass"]):
+        if (w >> j) & 1:
+            o ^= row ^ t["decPassZero"]
+    return o
+
+
+def check_table(t, r, d, cw, cases, words_in, outs):
+    """Already evaluated cases of a job against the regenerated table of the same width (no extra evaluation):
+    encoder word = XOR of the generator rows; enable=0 outputs = XOR of the extraction rows; single flips carry the
+    flags of the single-error table.  Returns problem strings."""
+    probs = []
+    if cw != table_encode(t, d):
+        probs.append("encoder(%d) = %d, XOR of the regenerated generator rows gives %d" % (d, cw, table_encode(t, d)))
+    for (flips, en), w, out in zip(cases, words_in, outs):
+        if not en and 4 * out[0] + 2 * out[1] + out[2] != table_pass(t, w):
+            probs.append("enable=0 word %d: output %r, XOR of the regenerated extraction rows gives %d" % (w, out, table_pass(t, w)))
+        if en and len(flips) == 1 and flips[0] < len(t["decSingle"]) and (t["decSingle"][flips[0]] & 3) != 2 * out[1] + out[2]:
+            probs.append("single flip %d: flags %r, regenerated single-error table has %d" % (flips[0], out[1:], t["decSingle"][flips[0]] & 3))
+    return probs[:2]
+
+
+def _table_worker(k):
+    try:
+        resource_limit()
+        with alarm(90, "extracting the GF(2) tables of ECCEncoder/ECCDecoder(%d)" % k):
+            return k, extract_table(k, random.Random(_TABLE_SEED * 1009 + k)), None
+    except Exception as e:
+        return k, None, "%r while %s" % (e, CURRENT.get("doing", "extracting the tables"))
+
+
+_TABLE_SEED = 0
+
+
+def resource_limit():
+    try:
+        import resource
+        resource.setrlimit(resource.RLIMIT_AS, (6 << 30, 6 << 30))
+    except Exception:
+        pass
+
+
+def _lean_list(l):
+    return "[" + ", ".join(str(x) for x in l) + "]"
+
+
+def render_tables(tabs):
+    out = ["/-", "  GENERATED by harness/c18lib.py:regen_tables from the elaborated `ECCEncoder(k)` / `ECCDecoder(k)` netlists of",
+           "  litex/soc/cores/ecc.py (evaluated on the zero word and on the unit vectors).  Do not edit.",
+           "  encZero/encRows: ECCEncoder.o for i = 0 / i = 1 <<< b.   decPass j: 4*o + 2*sec + ded of ECCDecoder, enable = 0,",
+           "  i = 1 <<< j.   decSingle j: the same for enable = 1, i = encZero ^^^ (1 <<< j).   synCols j / flipCols j: value of",
+           "  the decoder's syndrome signal and `codeword_c ^ codeword` (in code word bit numbering) for that input.",
+           "  An empty list = width not in the table (or structure not found in the netlist).", "-/",
+           "namespace Litex.Ecc.Tables", "",
+           "def widths : List Nat := " + _lean_list(sorted(tabs)), ""]
+    def fn(name, get, default):
+        out.append("def %s : Nat → %s" % (name, "Nat" if default == "0" else "List Nat"))
+        for k in sorted(tabs):
+            v = get(tabs[k])
+            out.append("  | %d => %s" % (k, v if default == "0" else _lean_list(v if v is not None else [])))
+        out.append("  | _ => %s" % default)
+        out.append("")
+    fn("codeLen", lambda t: t["nbits"], "0")
+    fn("encZero", lambda t: t["encZero"], "0")
+    fn("encRows", lambda t: t["encRows"], "[]")
+    fn("decPassZero", lambda t: t["decPassZero"], "0")
+    fn("decPass", lambda t: t["decPass"], "[]")
+    fn("decClean", lambda t: t["decClean"], "0")
+    fn("decSingle", lambda t: t["decSingle"], "[]")
+    fn("synCols", lambda t: t["synCols"], "[]")
+    fn("flipCols", lambda t: t["flipCols"], "[]")
+    out.append("end Litex.Ecc.Tables")
+    return "\n".join(out) + "\n"
+
+
+def regen_tables(seed=0, procs=None):
+    """Rewrite GEN_FILE from the real netlists.  -> (changed: bool, problems: [dict])."""
+    global _TABLE_SEED
+    import multiprocessing as mp
+    _TABLE_SEED = seed
+    ks = sorted(TABLE_KS, reverse=True)
+    procs = procs or min(len(ks), int(os.environ.get("VERIF_PROCS", "0")) or (os.cpu_count() or 4))
+    if procs <= 1:
+        res = [_table_worker(k) for k in ks]
+    else:
+        with mp.get_context("fork").Pool(procs) as pool:
+            res = pool.map(_table_worker, ks, chunksize=1)
+    problems = []
+    tabs = {}
+    for k, tp, err in res:
+        if err is not None:
+            problems.append({"kind": "elaboration", "k": k, "what": "table regeneration: " + err})
+            continue
+        t, probs = tp
+        tabs[k] = t
+        for p in probs:
+            p = dict(p); p["kind"] = "correspondence"; p["k"] = k
+            p["what"] = "regenerated GF(2) table: " + p["what"]
+            problems.append(p)
+        if t["synCols"] is None:
+            problems.append({"kind": "correspondence", "k": k, "what": "regenerated GF(2) table: the decoder netlist has no "
+                             "`Case(syndrome, ...)` correction statement any more (syndrome matrix not extractable)"})
+    TABLES.clear()
+    TABLES.update(tabs)
+    text = render_tables(tabs)
+    old = open(GEN_FILE).read() if os.path.exists(GEN_FILE) else None
+    if old != text:
+        with open(GEN_FILE, "w") as f:
+            f.write(text)
+    return old != text, problems
 
 
 # ---------------------------------------------------------------------------------------------------------
@@ -235,6 +441,28 @@ def oracle(k, n, d, cw, flips, en, out):
     return None
 
 
+def tie_internals(lean, res, k, items):
+    """items: [(en, w, (syndrome, flipmask))] read from the real decoder -> compare with `call syn`."""
+    items = [it for it in items if it[2] is not None]
+    if not items:
+        return
+    ans = lean.call_batch(["syn %d %d %d" % (k, en, w) for en, w, _ in items])
+    bad = 0
+    for (en, w, iv), a in zip(items, ans):
+        res["cases"] += 1
+        if a != "%d %d" % iv:
+            bad += 1
+            if bad <= 2:
+                res["dis"].append(_mk_dis("correspondence", k, "decoder internals (syndrome signal, codeword_c ^ codeword)",
+                                          enable=en, word=w, impl=list(iv), model=a))
+    res["hist"]["internal syndrome compared"] = res["hist"].get("internal syndrome compared", 0) + len(items)
+
+
+def table_dis(res, k, probs):
+    for p in probs:
+        res["dis"].append(_mk_dis("correspondence", k, "regenerated GF(2) table vs netlist: " + p))
+
+
 def all_flip_sets(nbits, upto=2):
     yield ()
     for j in range(nbits):
@@ -278,10 +506,26 @@ def job_small(lean, rng, k, monitor_only=False):
                                   "compute_m_n = %r; model has %r and %r" % (r.widths, r.impl_mn, r.want_widths, (r.m, r.n))))
     cws = [r.encode(d) for d in range(1 << k)]
     dec = {}
+    ints = []
     for en in (0, 1):
         for w in range(1 << nb):
             dec[(en, w)] = r.decode(en, w)
+            if k <= 5 or rng.random() < 256.0 / (1 << nb):
+                ints.append((en, w, r.internals()))
+    t = TABLES.get(k)
+    if t is not None:
+        for d in range(1 << k):
+            if cws[d] != table_encode(t, d):
+                table_dis(res, k, ["encoder(%d) = %d, XOR of the regenerated generator rows gives %d" % (d, cws[d], table_encode(t, d))])
+                break
+        for w in range(1 << nb):
+            o = dec[(0, w)]
+            if 4 * o[0] + 2 * o[1] + o[2] != table_pass(t, w):
+                table_dis(res, k, ["enable=0 word %d: output %r, XOR of the regenerated extraction rows gives %d" % (w, o, table_pass(t, w))])
+                break
+        res["hist"]["words checked against the regenerated tables"] = (1 << k) + (1 << nb)
     if not monitor_only:
+        tie_internals(lean, res, k, ints)
         ans = lean.call_batch(["enc %d %d" % (k, d) for d in range(1 << k)])
         for d, a in enumerate(ans):
             res["cases"] += 1
@@ -368,6 +612,7 @@ def job_large(lean, rng, k, words, pairs, monitor_only=False, garbage=32, fixed=
             cases.append((p, 0))
         outs = []
         words_in = []
+        ints = []
         for flips, en in cases:
             w = cw
             for j in flips:
@@ -375,6 +620,8 @@ def job_large(lean, rng, k, words, pairs, monitor_only=False, garbage=32, fixed=
             words_in.append(w)
             out = r.decode(en, w)
             outs.append(out)
+            if len(ints) < 2 * nb + 40:
+                ints.append((en, w, r.internals()))
             key = "oracle %d-flip en=%d" % (len(flips), en)
             res["hist"][key] = res["hist"].get(key, 0) + 1
             m = oracle(k, n, d, cw, flips, en, out)
@@ -384,7 +631,11 @@ def job_large(lean, rng, k, words, pairs, monitor_only=False, garbage=32, fixed=
                     res["dis"].append(_mk_dis("monitor", k, m, data=d, flips=list(flips), enable=en, codeword=cw, out=list(out)))
             if out[1] or out[2]:
                 res["nontrivial"] += 1
+        if TABLES.get(k) is not None:
+            table_dis(res, k, check_table(TABLES[k], r, d, cw, cases, words_in, outs))
+            res["hist"]["words checked against the regenerated tables"] = res["hist"].get("words checked against the regenerated tables", 0) + len(cases) + 1
         if not monitor_only:
+            tie_internals(lean, res, k, ints)
             a = lean.call_batch(["enc %d %d" % (k, d)])[0]
             res["cases"] += 1
             if a != str(cw):
@@ -404,7 +655,11 @@ def job_large(lean, rng, k, words, pairs, monitor_only=False, garbage=32, fixed=
     # arbitrary (non-code) input words: ties the decoder model outside the <=2-flip neighbourhood
     if not monitor_only and garbage:
         ws = [(rng.getrandbits(1), rng.getrandbits(nb)) for _ in range(garbage)]
-        outs = [r.decode(en, w) for en, w in ws]
+        outs, ints = [], []
+        for en, w in ws:
+            outs.append(r.decode(en, w))
+            ints.append((en, w, r.internals()))
+        tie_internals(lean, res, k, ints)
         ans = lean.call_batch(["dec %d %d %d" % (k, en, w) for en, w in ws])
         for (en, w), o, a in zip(ws, outs, ans):
             res["cases"] += 1
@@ -494,18 +749,17 @@ def job_loopback(lean, rng, k, words, monitor_only=False):
                                               codeword=cw, out=[o, sec, ded]))
             if sec or ded:
                 res["nontrivial"] += 1
-            lines.append("dec %d %d %d" % (k, en, cw ^ mask))
+            lines.append("loop %d %d %d %d" % (k, en, d, mask))
         if not monitor_only:
-            a0 = lean.call_batch(["enc %d %d" % (k, d)])[0]
             ans = lean.call_batch(lines)
             bad = 0
             for (flips, en), (cw, o, sec, ded), a in zip(cases, outs, ans):
                 res["cases"] += 1
-                if a0 != str(cw) or a != "%d %d %d" % (o, sec, ded):
+                if a != "%d %d %d %d" % (cw, o, sec, ded):
                     bad += 1
                     if bad <= 2:
                         res["dis"].append(_mk_dis("correspondence", k, "loopback module", data=d, flips=list(flips), enable=en,
-                                                  impl=[cw, o, sec, ded], model=[a0, a]))
+                                                  impl=[cw, o, sec, ded], model=a))
     return res
 
 
